@@ -59,3 +59,50 @@ Proof.
   vm_compute. split; congruence.
 Qed.
 Print Assumptions C08_rename_refuted.
+
+(* F8e (repaired: the mutators store private copies): for the pinned code, which kept the caller's object inside
+   the description, a later in-place change of that object by the caller is a write through a live reference
+   ([pinned_op]).  History: query; update_component(new); query; the caller sets new['command']['arguments'];
+   query — the last answer is the configuration cached before the caller's change although the description the
+   object now holds resolves to another one.  (For the repaired code the same history is covered by
+   C08_fresh_from / C08_args_private: MutateArg is not an operation on the object.) *)
+Theorem C08_alias_refuted : exists (d : doc) (pre : list op) (p : string) (s : Z) (n : string),
+  ok_hist pre = true /\ plat_ok p = true /\
+  let st := fst (run lit_matches (JDict []) (start d) (map pinned_op pre)) in
+  snd (step lit_matches (JDict []) st (Query p s n)) <> ORes (qresolve (JDict []) (s_doc st) p s n).
+Proof.
+  exists (r_doc [("default", "G"); ("p", "GP")] [r_comp "foo" 0 "%(x)s %(g)s" "1"]),
+         [Query "p" 0 "foo"; ReplaceComp 0 "foo" (r_comp "foo" 0 "A %(x)s" "2"); Query "p" 0 "foo";
+          MutateArg 0 "foo" ["command"; "arguments"] (JStr "B")], "p", 0%Z, "foo".
+  vm_compute. repeat split; congruence.
+Qed.
+Print Assumptions C08_alias_refuted.
+
+(* The discipline [ok_hist] of C08_fresh_from cannot be dropped: a write through a live reference
+   (get_components(return_copy=False), or a dictionary obtained from get_component(.., return_copy=False) BEFORE
+   the query) that is not followed by invalidate_cache_for_component leaves the cached configuration in place.
+   return_copy=False asks for "the actual dictionary": by design, the caller's responsibility — not a finding. *)
+Theorem C08_live_ref_refuted : exists (d : doc) (pre : list op) (p : string) (s : Z) (n : string),
+  plat_ok p = true /\
+  nth_error (snd (run lit_matches (JDict []) (start d) (pre ++ [Query p s n]))) (length pre)
+  <> Some (ORes (qresolve (JDict []) (doc_after d pre) p s n)).
+Proof.
+  exists (r_doc [("default", "G"); ("p", "GP")] [r_comp "foo" 0 "%(x)s %(g)s" "1"]),
+         [Query "p" 0 "foo"; LiveWrite 0 "foo" ["command"; "arguments"] (JStr "B")], "p", 0%Z, "foo".
+  vm_compute. split; congruence.
+Qed.
+Print Assumptions C08_live_ref_refuted.
+
+(* The same for a reference to the global variables of a platform kept across a query
+   (get_platform_global_variables(p, return_copy=False) clears the cache when it hands the dictionary out, not
+   when the caller writes into it). *)
+Theorem C08_live_var_refuted : exists (d : doc) (pre : list op) (p : string) (s : Z) (n : string),
+  plat_ok p = true /\
+  nth_error (snd (run lit_matches (JDict []) (start d) (pre ++ [Query p s n]))) (length pre)
+  <> Some (ORes (qresolve (JDict []) (doc_after d pre) p s n)).
+Proof.
+  exists (r_doc [("default", "G"); ("p", "GP")] [r_comp "foo" 0 "%(x)s %(g)s" "1"]),
+         [Query "p" 0 "foo"; LiveVarWrite "p" "g" (JStr "B")], "p", 0%Z, "foo".
+  vm_compute. split; congruence.
+Qed.
+Print Assumptions C08_live_var_refuted.
